@@ -34,4 +34,368 @@ def generate(files, HEADER, coq_str, coq_str_list, coq_ranges, GenError):
         raise GenError('shell.py: default_option_context')
     out.append('Definition sh_default_context : Z := %d.'
                % sc['default_option_context'])
+    out += parser_tables(coq_str, coq_str_list, GenError)
     files['Tables.v'] = '\n'.join(out) + '\n'
+    catalogue(files, HEADER, coq_str, coq_str_list, GenError)
+
+
+def decimal_ranges(GenError):
+    """runs of decimal characters; int(c) == (c - lo) % 10 must hold"""
+    out = []
+    start = None
+    for c in range(0x110000):
+        if chr(c).isdecimal():
+            if start is None:
+                start = c
+        elif start is not None:
+            out.append((start, c - 1))
+            start = None
+    for lo, hi in out:
+        for c in range(lo, hi + 1):
+            if int(chr(c)) != (c - lo) % 10:
+                raise GenError('decimal value of U+%04X' % c)
+    return out
+
+
+def parser_tables(coq_str, coq_str_list, GenError):
+    sys.path.insert(0, REPO)
+    from yalafi import parameters
+    out = []
+    P = parameters.Parameters('en')
+    out.append('Definition pt_specials_sorted : list str := %s.'
+               % coq_str_list(P.scanner.special_tokens_sorted))
+    out.append('Definition pt_special_values : list (str * str) := [%s].'
+               % '; '.join('(%s, %s)' % (coq_str(k), coq_str(v))
+                           for k, v in P.special_tokens.items()))
+    out.append('Definition pt_accents : list (str * list str) := [%s].'
+               % '; '.join('(%s, %s)' % (coq_str(k), coq_str_list(v))
+                           for k, v in P.accent_macros.items()))
+    out.append('Definition pt_mark : str := %s.' % coq_str(P.mark_latex_error))
+    out.append('Definition pt_verbose : bool := %s.'
+               % ('true' if P.mark_latex_error_verbose else 'false'))
+    # macro_character as a table over all code points
+    rs = []
+    start = None
+    for c in range(0x110000):
+        if P.macro_character(chr(c)):
+            if start is None:
+                start = c
+        elif start is not None:
+            rs.append((start, c - 1)); start = None
+    out.append('Definition tbl_macro_char : list (N * N) := [%s]%%N.'
+               % '; '.join('(%d, %d)' % r for r in rs))
+    out.append('Definition pt_macro_char (c : char) : bool := in_ranges tbl_macro_char c.')
+    dr = decimal_ranges(GenError)
+    out.append('Definition tbl_decimal_runs : list (N * N) := [%s]%%N.'
+               % '; '.join('(%d, %d)' % r for r in dr))
+    out.append('Fixpoint decimal_value_in (t : list (N * N)) (c : N) : nat :=\n'
+               '  match t with\n  | [] => 0%nat\n'
+               '  | (lo, hi) :: t\' => if (N.leb lo c && N.leb c hi)%bool\n'
+               '      then N.to_nat ((c - lo) mod 10)%N else decimal_value_in t\' c\n  end.')
+    out.append('Definition pt_decimal_value (c : char) : nat := '
+               'decimal_value_in tbl_decimal_runs c.')
+    return out
+
+
+# ---------------------------------------------------------------------------
+#   Catalogue.v: the `tables` record of coq/model/PState.v
+# ---------------------------------------------------------------------------
+
+def coq_bool(b):
+    return 'true' if b else 'false'
+
+
+def catalogue(files, HEADER, coq_str, coq_str_list, GenError):
+    sys.path.insert(0, REPO)
+    import importlib, pkgutil, unicodedata
+    from yalafi import parameters, parser as yparser, defs, handlers
+    import yalafi.packages, yalafi.documentclasses
+
+    def kind_term(t):
+        k = type(t)
+        simple = {defs.TextToken: 'KText', defs.SpaceToken: 'KSpace',
+                  defs.ParagraphToken: 'KPar', defs.CommentToken: 'KComment',
+                  defs.SpecialToken: 'KSpecial', defs.MacroToken: 'KMacro',
+                  defs.BeginToken: 'KBegin', defs.EndToken: 'KEnd',
+                  defs.ItemToken: 'KItem', defs.AccentToken: 'KAccent',
+                  defs.ActionToken: 'KAction', defs.VoidToken: 'KVoid'}
+        if k in simple:
+            return simple[k]
+        if k is defs.VerbatimToken:
+            return '(KVerb %s)' % coq_bool(t.environ)
+        if k is defs.ArgumentToken:
+            return '(KArg %d)' % t.arg
+        if k is defs.LanguageToken:
+            return '(KLang %s %s %s %s)' % (coq_str(t.lang), coq_bool(t.back),
+                                            coq_bool(t.hard), coq_bool(t.brk))
+        raise GenError('token kind %s in a table' % k.__name__)
+
+    def tok_term(t):
+        return '(mk %s %d %s %s)' % (kind_term(t), t.pos, coq_str(t.txt),
+                                     coq_bool(t.pos_fix))
+
+    def toks_term(ts):
+        return '[' + '; '.join(tok_term(t) for t in ts) + ']'
+
+    P0 = parameters.Parameters('en')
+
+    def handler_term(f):
+        mod = getattr(f, '__module__', '')
+        qn = getattr(f, '__qualname__', '')
+        simple = {
+            ('yalafi.handlers', 'h_newcommand'): 'HNewcommand',
+            ('yalafi.handlers', 'h_newtheorem'): 'HNewtheorem',
+            ('yalafi.handlers', 'h_heading'): 'HHeading',
+            ('yalafi.handlers', 'h_phantom'): 'HPhantom',
+            ('yalafi.handlers', 'h_hspace'): 'HHspace',
+            ('yalafi.handlers', 'h_cite'): 'HCite',
+            ('yalafi.handlers', 'h_load_defs'): 'HLoadDefs',
+            ('yalafi.packages.amsmath', 'h_substack'): 'HSubstack',
+            ('yalafi.packages.amsthm', 'h_proof'): 'HProof',
+            ('yalafi.packages.babel', 'h_foreignlanguage'): 'HForeign',
+            ('yalafi.packages.babel', 'h_selectlanguage'): 'HSelect',
+            ('yalafi.packages.babel', 'h_begin_otherlang'): 'HBeginOther',
+            ('yalafi.packages.babel', 'h_end_otherlang'): 'HEndOther',
+            ('yalafi.packages.babel', 'h_end_otherlang_star'): 'HEndOtherStar',
+            ('yalafi.packages.biblatex', 'h_cite'): 'HBibCite',
+            ('yalafi.packages.biblatex', 'h_footcite'): 'HFootcite',
+            ('yalafi.packages.glossaries', 'h_newacronym'): 'HNewacronym',
+            ('yalafi.packages.glossaries', 'h_newglossaryentry'): 'HNewglossaryentry',
+            ('yalafi.packages.glossaries', 'h_parse_glsdefs'): 'HParseGlsdefs',
+            ('yalafi.packages.xspace', 'h_xspace'): 'HXspace',
+        }
+        if (mod, qn) in simple:
+            return simple[(mod, qn)]
+        cells = {}
+        if getattr(f, '__closure__', None):
+            for name, cell in zip(f.__code__.co_freevars, f.__closure__):
+                try:
+                    cells[name] = cell.cell_contents
+                except ValueError:
+                    pass
+        if (mod, qn) == ('yalafi.handlers', 'h_load_module.<locals>.f'):
+            pre = cells.get('prefix')
+            if pre == P0.class_modules:
+                return '(HLoadModule true)'
+            if pre == P0.package_modules:
+                return '(HLoadModule false)'
+        if (mod, qn) == ('yalafi.packages.glossaries', 'h_gls.<locals>.f'):
+            mods = [m.__name__ for m in cells.get('mods', [])]
+            cap = {(): 0, ('cap_first',): 1, ('cap_all',): 2}.get(tuple(mods))
+            if cap is not None and isinstance(cells.get('key'), str):
+                return '(HGls %s %d)' % (coq_str(cells['key']), cap)
+        return '(HUnmodelled %s)' % coq_str(mod + '.' + qn)
+
+    def args_term(a):
+        m = {'*': 'AStar', 'O': 'AOpt', 'A': 'AMand'}
+        return '[' + '; '.join(m[c] for c in a) + ']'
+
+    def macro_term(m):
+        if callable(m.repl):
+            repl = '(RHandler %s)' % handler_term(m.repl)
+        else:
+            repl = '(RToks %s)' % toks_term(m.repl)
+        return ('{| m_name := %s; m_args := %s; m_repl := %s; m_defaults := [%s];'
+                ' m_extract := %s |}' % (
+                    coq_str(m.name), args_term(m.args), repl,
+                    '; '.join(toks_term(d) for d in m.defaults),
+                    toks_term(m.extract)))
+
+    def env_term(e):
+        items = 'None'
+        if e.items is not None:
+            n = getattr(e.items, '__name__', '')
+            items = {'labs_enumerate': '(Some IEnumerate)',
+                     'labs_itemize': '(Some IItemize)'}.get(n)
+            if items is None:
+                raise GenError('item generator %s of %s' % (n, e.name))
+        endf = 'None' if e.end_func is None else '(Some %s)' % handler_term(e.end_func)
+        return ('{| e_mac := %s; e_add_pars := %s; e_remove := %s; e_items := %s;'
+                ' e_end := %s; e_equ := %s |}' % (
+                    macro_term(e), coq_bool(e.add_pars), coq_bool(e.remove),
+                    items, endf, coq_bool(type(e) is defs.EquEnv)))
+
+    WATCH = ['math_text_macros', 'math_operators', 'newcommand_ignore',
+             'math_ignore', 'math_space', 'math_punctuation', 'heading_punct',
+             'item_default_label', 'item_punctuation', 'special_tokens',
+             'accent_macros', 'math_default_env', 'mark_latex_error',
+             'comment_skip_begin', 'comment_skip_end']
+
+    def snapshot(parms):
+        import copy
+        return {k: copy.deepcopy(getattr(parms, k)) for k in WATCH}
+
+    def module_term(modname, pkg):
+        m = importlib.import_module(pkg + '.' + modname)
+        if not hasattr(m, 'init_module'):
+            return None
+        parms = parameters.Parameters('en')
+        pr = yparser.Parser(parms)
+        before = snapshot(parms)
+        g0 = list(pr.global_latex_options)
+        import io, contextlib
+        with contextlib.redirect_stderr(io.StringIO()):
+            r0 = m.init_module(pr, [], 0)
+        after = snapshot(parms)
+        add = {}
+        for k in WATCH:
+            if before[k] != after[k]:
+                if k in ('math_text_macros', 'math_operators', 'newcommand_ignore') \
+                        and after[k][:len(before[k])] == before[k]:
+                    add[k] = after[k][len(before[k]):]
+                else:
+                    raise GenError('module %s changes parameter %s' % (modname, k))
+        # inject tokens / global options: probe with an option
+        parms2 = parameters.Parameters('en')
+        pr2 = yparser.Parser(parms2)
+        with contextlib.redirect_stderr(io.StringIO()):
+            r1 = m.init_module(pr2, [('german', None)], 0)
+        glob = pr2.global_latex_options != []
+        if modname == 'babel' and pkg.endswith('packages'):
+            inj = 'InjBabel'
+        elif r0.inject_tokens or r1.inject_tokens:
+            inj = 'InjUnmodelled'
+        else:
+            inj = 'InjNone'
+        return ('{| md_require := %s; md_macros_latex := %s; md_macros_python := [%s];'
+                ' md_environs := [%s]; md_inject := %s; md_math_text_macros := %s;'
+                ' md_math_operators := %s; md_newcommand_ignore := %s;'
+                ' md_global_opts := %s |}' % (
+                    coq_str_list(list(getattr(m, 'require_packages', []))),
+                    coq_str(r0.macros_latex),
+                    ';\n    '.join(macro_term(x) for x in r0.macros_python),
+                    ';\n    '.join(env_term(x) for x in r0.environs),
+                    inj, coq_str_list(add.get('math_text_macros', [])),
+                    coq_str_list(add.get('math_operators', [])),
+                    coq_str_list(add.get('newcommand_ignore', [])),
+                    coq_bool(glob)))
+
+    out = [HEADER,
+           'From YV Require Import ShellMap Token Utils Scanner PState CharTables Tables.',
+           'Open Scope Z_scope.\n']
+    # upper()
+    ups = []
+    for c in range(0x110000):
+        ch = chr(c)
+        u = ch.upper()
+        if u != ch:
+            ups.append((c, u))
+    out.append('Definition tbl_upper : list (N * str) := [\n  %s\n].' % ';\n  '.join(
+        '; '.join('(%d%%N, %s)' % (c, coq_str(u)) for c, u in ups[i:i + 6])
+        for i in range(0, len(ups), 6)))
+    out.append('Fixpoint upper_in (t : list (N * str)) (c : N) : str :=\n'
+               '  match t with [] => [c] | (k, v) :: t\' => if N.eqb c k then v '
+               'else if N.ltb c k then [c] else upper_in t\' c end.')
+    out.append('Definition py_upper (c : char) : str := upper_in tbl_upper c.')
+    # accents
+    rows = []
+    alone = []
+    for mac, parts in P0.accent_macros.items():
+        try:
+            alone.append((mac, ord(unicodedata.lookup(' '.join(parts)))))
+        except Exception:
+            alone.append((mac, None))
+        lst = []
+        for c in 'abcdefghijklmnopqrstuvwxyzABCDEFGHIJKLMNOPQRSTUVWXYZ':
+            name = ('LATIN ' + ('SMALL' if c.islower() else 'CAPITAL')
+                    + ' LETTER ' + c.upper() + ' WITH ' + parts[0])
+            try:
+                lst.append((ord(c), ord(unicodedata.lookup(name))))
+            except Exception:
+                pass
+        rows.append((mac, lst))
+    out.append('Definition tbl_accent : list (str * list (N * N)) := [\n  %s\n].' % ';\n  '.join(
+        '(%s, [%s]%%N)' % (coq_str(m), '; '.join('(%d, %d)' % p for p in l))
+        for m, l in rows))
+    out.append('Definition py_accent_char (mac : str) (c : char) : option char :=\n'
+               '  match assoc mac tbl_accent with\n  | Some l => '
+               'match find (fun p => N.eqb (fst p) c) l with Some p => Some (snd p) '
+               '| None => None end\n  | None => None end.')
+    out.append('Definition tbl_accent_alone : list (str * option N) := [%s].' % '; '.join(
+        '(%s, %s)' % (coq_str(m), 'None' if v is None else 'Some %d%%N' % v)
+        for m, v in alone))
+    out.append('Definition py_accent_alone (mac : str) : option char :=\n'
+               '  match assoc mac tbl_accent_alone with Some v => v | None => None end.')
+    # language settings
+    ls = []
+    for key, s in P0.parser_lang_settings.items():
+        ops = [(k, v) for k, v in s.math_op_text.items() if k is not None]
+        ls.append('(%s, {| ls_proof_name := %s; ls_inline := %s; ls_display := %s;'
+                  ' ls_change := %s; ls_op_text := [%s]; ls_op_default := %s;'
+                  ' ls_short := [%s]; ls_active := %s |})' % (
+                      coq_str(key), coq_str(s.proof_name),
+                      coq_str_list(s.math_repl_inline), coq_str_list(s.math_repl_display),
+                      coq_str_list(s.lang_change_repl),
+                      '; '.join('(%s, %s)' % (coq_str(k), coq_str(v)) for k, v in ops),
+                      coq_str(s.math_op_text[None]),
+                      '; '.join('(%s, %s)' % (coq_str(k), coq_str(v))
+                                for k, v in s.short_macros.items()),
+                      coq_str_list(sorted(s.active_chars))))
+    out.append('Definition tbl_langs : list (str * lang_settings) := [\n  %s\n].'
+               % ';\n  '.join(ls))
+    # builtin module
+    pb = parameters.Parameters('en')
+    builtin = ('{| md_require := []; md_macros_latex := %s; md_macros_python := [\n    %s];'
+               ' md_environs := [\n    %s]; md_inject := InjNone; md_math_text_macros := %s;'
+               ' md_math_operators := %s; md_newcommand_ignore := %s;'
+               ' md_global_opts := false |}' % (
+                   coq_str(pb.macro_defs_latex),
+                   ';\n    '.join(macro_term(x) for x in pb.macro_defs_python),
+                   ';\n    '.join(env_term(x) for x in pb.environment_defs),
+                   coq_str_list(pb.math_text_macros), coq_str_list(pb.math_operators),
+                   coq_str_list(pb.newcommand_ignore)))
+    out.append('Definition tbl_builtin : module :=\n  %s.' % builtin)
+    # nosp variant: Parameters.no_specials()
+    pn = parameters.Parameters('en')
+    pn.no_specials()
+    extra = pn.macro_defs_python[len(pb.macro_defs_python):]
+    out.append('Definition tbl_nosp_macros : list macro := [\n  %s].'
+               % ';\n  '.join(macro_term(x) for x in extra))
+    out.append('Definition tbl_nosp_skip : str * str := (%s, %s).'
+               % (coq_str(pn.comment_skip_begin), coq_str(pn.comment_skip_end)))
+    for pkg, nm in (('yalafi.packages', 'tbl_packages'),
+                    ('yalafi.documentclasses', 'tbl_classes')):
+        mods = []
+        p = importlib.import_module(pkg)
+        for info in pkgutil.iter_modules(p.__path__):
+            t = module_term(info.name, pkg)
+            if t is not None:
+                mods.append('(%s,\n   %s)' % (coq_str(info.name), t))
+        out.append('Definition %s : list (str * module) := [\n  %s\n].'
+                   % (nm, ';\n  '.join(mods)))
+    from yalafi.packages import babel, xspace, biblatex
+    out.append('Definition tbl_babel_map : list (str * str) := [%s].' % '; '.join(
+        '(%s, %s)' % (coq_str(k), coq_str(v)) for k, v in babel.language_map.items()))
+    lt = yalafi.packages.load_table
+    out.append('Definition tbl_load_star : list str := %s.' % coq_str_list(lt['*']))
+    out.append('''
+Definition scan_parms_py : scan_parms :=
+  {| sp_is_space := py_isspace; sp_is_decimal := py_isdecimal;
+     sp_decimal_value := pt_decimal_value; sp_macro_char := pt_macro_char;
+     sp_specials := pt_specials_sorted; sp_accents := map fst pt_accents;
+     sp_mark := pt_mark; sp_verbose := pt_verbose |}.
+
+Definition py_tables : tables :=
+  {| t_scan := scan_parms_py;
+     t_is_space := py_isspace; t_is_alpha := py_isalpha; t_is_lower := py_islower;
+     t_is_decimal := py_isdecimal; t_is_alnum := py_isalnum;
+     t_upper := py_upper;
+     t_special_values := pt_special_values; t_accents := pt_accents;
+     t_accent_char := py_accent_char; t_accent_alone := py_accent_alone;
+     t_heading_punct := %s; t_item_default_label := %s; t_item_punctuation := %s;
+     t_math_ignore := %s; t_math_space := %s; t_math_punctuation := %s;
+     t_math_default_env := %s;
+     t_comment_skip_begin := %s; t_comment_skip_end := %s;
+     t_langs := tbl_langs; t_builtin := tbl_builtin;
+     t_packages := tbl_packages; t_classes := tbl_classes;
+     t_babel_map := tbl_babel_map;
+     t_babel_breaks := (%s, %s, %s); t_math_op_default_key := tt;
+     t_xspace_excl := %s; t_cite_text := %s |}.
+''' % (coq_str_list(P0.heading_punct), coq_str_list(P0.item_default_label),
+       coq_str_list(P0.item_punctuation), coq_str_list(P0.math_ignore),
+       coq_str_list(P0.math_space), coq_str_list(P0.math_punctuation),
+       coq_str(P0.math_default_env), coq_str(P0.comment_skip_begin),
+       coq_str(P0.comment_skip_end), coq_bool(babel.foreignlang_break),
+       coq_bool(babel.selectlang_break), coq_bool(babel.otherlang_break),
+       coq_str_list(xspace.xspace_excl), coq_str(biblatex.cite_text)))
+    files['Catalogue.v'] = '\n'.join(out) + '\n'
